@@ -1322,6 +1322,40 @@ fn dev(mode: &str) {
             }
             let _ = std::fs::remove_dir_all(&base);
         }
-        _ => println!("modes: count | time"),
+        "prof" => {
+            let base = std::path::PathBuf::from(format!("/dev/shm/turdb_verif/c07dev_{}", std::process::id()));
+            for table in [Table::Plain, Table::IntPk] {
+                let n = 200;
+                let mut acc = [0f64; 6];
+                for _ in 0..n {
+                    let t0 = std::time::Instant::now();
+                    let t = TestDb::create(&base, "p").unwrap();
+                    let t1 = std::time::Instant::now();
+                    for s in setup_sql(table, Start::Rows12, 0) {
+                        let _ = t.exec(&s);
+                    }
+                    let t2 = std::time::Instant::now();
+                    let sc = Script { table, start: Start::Rows12, ops: vec![Op::UpdA(1)], term: Term::Rollback };
+                    let q = queries(&sc);
+                    let _o = observe_all(t.db(), &q);
+                    let t3 = std::time::Instant::now();
+                    let _ = t.exec("BEGIN");
+                    let _ = t.exec(&Op::UpdA(1).sql(table));
+                    let _ = t.exec("ROLLBACK");
+                    let t4 = std::time::Instant::now();
+                    let c = t.db().clone();
+                    drop(c);
+                    let t5 = std::time::Instant::now();
+                    drop(t);
+                    let t6 = std::time::Instant::now();
+                    for (i, d) in [t1 - t0, t2 - t1, t3 - t2, t4 - t3, t5 - t4, t6 - t5].iter().enumerate() {
+                        acc[i] += d.as_secs_f64() * 1000.0 / n as f64;
+                    }
+                }
+                println!("{}: create {:.2} setup {:.2} observe {:.2} txn {:.2} clone+drop {:.2} drop+rm {:.2} ms", table.name(), acc[0], acc[1], acc[2], acc[3], acc[4], acc[5]);
+            }
+            let _ = std::fs::remove_dir_all(&base);
+        }
+        _ => println!("modes: count | time | prof"),
     }
 }
